@@ -23,6 +23,7 @@ from unified_planning.engines.compilers.utils import (
     updated_minimize_action_costs,
 )
 from unified_planning.engines.results import CompilerResult
+from unified_planning.exceptions import UPConflictingEffectsException
 from unified_planning.model import (
     AbstractProblem,
     FNode,
@@ -334,21 +335,25 @@ class DisjunctiveConditionsRemover(engines.engine.Engine, CompilerMixin):
             else:
                 new_action.add_condition(i, c)
         new_action.clear_effects()
-        for t, el in original_action.effects.items():
-            for e in el:
-                if e.is_conditional():
-                    new_cond = dnf.get_dnf_expression(e.condition).simplify()
-                    if new_cond.is_or():
-                        for and_exp in new_cond.args:
+        try:
+            for t, el in original_action.effects.items():
+                for e in el:
+                    if e.is_conditional():
+                        new_cond = dnf.get_dnf_expression(e.condition).simplify()
+                        if new_cond.is_or():
+                            for and_exp in new_cond.args:
+                                new_e = e.clone()
+                                new_e.set_condition(and_exp)
+                                new_action._add_effect_instance(t, new_e)
+                        elif not new_cond.is_false():
                             new_e = e.clone()
-                            new_e.set_condition(and_exp)
+                            new_e.set_condition(new_cond)
                             new_action._add_effect_instance(t, new_e)
-                    elif not new_cond.is_false():
-                        new_e = e.clone()
-                        new_e.set_condition(new_cond)
-                        new_action._add_effect_instance(t, new_e)
-                else:
-                    new_action._add_effect_instance(t, e)
+                    else:
+                        new_action._add_effect_instance(t, e)
+        except UPConflictingEffectsException:
+            # see _create_new_action_with_given_precond
+            return None
         if len(new_action.effects) == 0:
             return None
         return new_action
@@ -372,20 +377,25 @@ class DisjunctiveConditionsRemover(engines.engine.Engine, CompilerMixin):
         else:
             new_action.add_precondition(precond)
         new_action.clear_effects()
-        for e in original_action.effects:
-            if e.is_conditional():
-                new_cond = dnf.get_dnf_expression(e.condition).simplify()
-                if new_cond.is_or():
-                    for and_exp in new_cond.args:
+        try:
+            for e in original_action.effects:
+                if e.is_conditional():
+                    new_cond = dnf.get_dnf_expression(e.condition).simplify()
+                    if new_cond.is_or():
+                        for and_exp in new_cond.args:
+                            new_e = e.clone()
+                            new_e.set_condition(and_exp)
+                            new_action._add_effect_instance(new_e)
+                    elif not new_cond.is_false():
                         new_e = e.clone()
-                        new_e.set_condition(and_exp)
+                        new_e.set_condition(new_cond)
                         new_action._add_effect_instance(new_e)
-                elif not new_cond.is_false():
-                    new_e = e.clone()
-                    new_e.set_condition(new_cond)
-                    new_action._add_effect_instance(new_e)
-            else:
-                new_action._add_effect_instance(e)
+                else:
+                    new_action._add_effect_instance(e)
+        except UPConflictingEffectsException:
+            # an effect whose condition simplifies to true conflicts with another
+            # effect: the original action can not be applied, so it is left out
+            return None
         if len(new_action.effects) == 0:
             return None
         return new_action
